@@ -1275,3 +1275,22 @@ func structLiteralFields(v ssa.Value, depth int) map[string]string {
 	}
 	return nil
 }
+
+
+// substTermChain rewrites a term of a helper reached through chain into the anchor function's terms (parameters replaced
+// by the argument terms of each call of the chain, innermost first).
+func substTermChain(t string, chain []Site) string {
+	for i := len(chain) - 1; i >= 0; i-- {
+		if chain[i].Callee == nil {
+			continue
+		}
+		d := substParams(dnf{conj{t: true}}, chain[i].Callee, chain[i].Args())
+		for a := range d[0] {
+			if a != t {
+				t = a
+				break
+			}
+		}
+	}
+	return t
+}
